@@ -500,7 +500,10 @@ pub fn abstract_plus(first: &Value, second: &Value) -> Value {
 
     match (first_num, second_num) {
         (Some(f), Some(s)) => {
-            return Value::Number(Number::from_f64(f + s).unwrap());
+            // a non-finite sum has no JSON number; JSON.stringify gives null
+            return Number::from_f64(f + s)
+                .map(Value::Number)
+                .unwrap_or(Value::Null);
         }
         _ => {}
     };
